@@ -264,17 +264,20 @@ theorem step_skip {s : St} {op : Op} {why : String} (h : (step cfg s op).2 = .sk
 
 /-- the reasons a freeing operation on a whole live object is left out -/
 theorem freeSkip_reasons {s : St} {f : FreeOp} {id : Nat} {o : Obj} {why : String}
-    (h : s.freeSkip cfg f id o = some why) : why = "misuse" ∨ why = "referenced" := by
+    (h : s.freeSkip cfg f id o = some why) : why = "misuse" ∨ why = "referenced" ∨ why = "dangling" := by
   unfold St.freeSkip at h
   repeat' split at h
   all_goals first
     | (cases h; exact Or.inl rfl)
-    | (cases h; exact Or.inr rfl)
+    | (cases h; exact Or.inr (Or.inl rfl))
+    | (cases h; exact Or.inr (Or.inr rfl))
     | cases h
 
-/-- a freeing operation on a live object that is not on the heap (and is not a run-time Type in use) is never left out -/
+/-- a freeing operation on a live object that is not on the heap (and is neither a run-time Type in use nor a Box with a
+    dangling pointer) is never left out -/
 theorem freeSkip_nonheap_none (F : Facts cfg) {s : St} (hw : WF cfg s) {id : Nat} {o : Obj} (f : FreeOp)
-    (hget : s.get id = some o) (hnh : o.hdr.alloc ≠ cfg.cHeap) (hty : s.isTypeInUse id = false) :
+    (hget : s.get id = some o) (hnh : o.hdr.alloc ≠ cfg.cHeap) (hty : s.isTypeInUse id = false)
+    (hdb : s.danglingBox o = false) :
     s.freeSkip cfg f id o = none := by
   have hnr : s.isReg id = false := by
     cases hr : s.isReg id with
@@ -284,6 +287,6 @@ theorem freeSkip_nonheap_none (F : Facts cfg) {s : St} (hw : WF cfg s) {id : Nat
       obtain ⟨o1, hget1, hheap, _⟩ := hw.reg p hp
       rw [hpid, hget] at hget1; cases hget1; exact absurd hheap hnh
   have hb : (o.hdr.alloc == cfg.cHeap) = false := by simpa using hnh
-  simp [St.freeSkip, hnr, hty, hb]
+  simp [St.freeSkip, hnr, hty, hb, hdb]
 
 end Cello.Hdr
